@@ -17,7 +17,7 @@ pub fn meta() -> Meta {
     Meta {
         id: "C02",
         level: "exploration",
-        rule: "metamorphic relation on the real builder, enumerated completely per input family: F1 every record over {A,C,G,T,N} up to length 7 (k=5) with its reverse complement, every case mask (length<=6) and every line width; F2 the restart family L+N+R (k-mers on both sides of an N) against its reverse complement; F3 for all 30 k a repeat-free string of k+3 letters with N at every position: reverse complement, lower/alternating case, line widths 1,2,k,len-1, gzip (with and without .gz extension), CRLF line ends, header descriptions + blank lines + no final newline, an empty record in front, and the same records as FASTQ built with min-count 1 and no quality rule; F4 every ordered triple from a record pool with every subset reverse-complemented and every permutation; F4b four records with the same arms and every sequence of four middle bases (repeats included), sorted / reversed / reverse-complemented; F5 every permutation of 3 and 4 samples through build_and_merge (columns permute with the names), and reversed/rotated orders of 72 samples through `ska build --threads 8` (recursive parallel merge); F6 paired FASTQ read sets under the read filter (min-count 2, each quality rule, one base of quality 19/20 at every position of one read, k in {5,33}): reverse-complementing any read with its qualities, reversing the read order, swapping the files, moving a read between the files. Non-trivial = the original input has at least one split k-mer and the transformed file differs from the original.".into(),
+        rule: "metamorphic relation on the real builder, enumerated completely per input family: F1 every record over {A,C,G,T,N} up to length 7 (k=5) with its reverse complement, every case mask (length<=6) and every line width; F2 the restart family L+N+R (k-mers on both sides of an N) against its reverse complement; F3 for all 30 k a repeat-free string of k+3 letters with N at every position: reverse complement, lower/alternating case, line widths 1,2,k,len-1, gzip (with and without .gz extension), CRLF line ends, header descriptions + blank lines + no final newline, an empty record in front, and the same records as FASTQ built with min-count 1 and no quality rule; F4 every ordered triple from a record pool with every subset reverse-complemented and every permutation; F4b four records with the same arms and every sequence of four middle bases (repeats included), sorted / reversed / reverse-complemented; F5 every permutation of 3 and 4 samples through build_and_merge (columns permute with the names), and reversed/rotated orders of 72 samples through `ska build --threads 8` (recursive parallel merge); F6 paired FASTQ read sets under the read filter (min-count 2, each quality rule, one base of quality 19/20 at every position of one read, k in {5,33}): reverse-complementing any read with its qualities, reversing the read order, swapping the files, moving a read between the files; F7 two alleles of one split k-mer each read exactly min-count times (3: every order of the six reads; 5: rotations of the sorted order and the alternating orders), the reads split over the two files at four points. Non-trivial = the original input has at least one split k-mer and the transformed file differs from the original.".into(),
         assumptions: vec!["a file without split k-mers may be refused; refusal is treated as the empty dictionary on both sides".into()],
         exhaustive_when_uncapped: true,
     }
@@ -439,6 +439,83 @@ pub fn run(ctx: &Ctx, rep: &mut Report) {
             }
         }
         rep.completed.push("F6 reads".into());
+    }
+    // F7 reads: two alleles of one split k-mer, each seen exactly min-count times (3, and the default 5): every order of
+    // the multiset of reads (min-count 3: all 20; min-count 5: sorted, reversed, alternating, and every rotation of
+    // the sorted order) split over the two files at every point gives the same dictionary
+    if !capped {
+        for k in [5usize, 33] {
+            let g = repeat_free(k + 2, k, 0, ctx.seed + 78);
+            let mut alt = g.clone();
+            alt[(k - 1) / 2 + 1] = comp(alt[(k - 1) / 2 + 1]);
+            for c in [3usize, 5] {
+                idx += 1;
+                if !ctx.mine(idx) {
+                    continue;
+                }
+                let n = 2 * c;
+                let mut orders: Vec<Vec<bool>> = Vec::new();
+                if c == 3 {
+                    for m in 0u32..(1 << n) {
+                        if m.count_ones() as usize == c {
+                            orders.push((0..n).map(|i| m >> i & 1 == 1).collect());
+                        }
+                    }
+                } else {
+                    let sorted: Vec<bool> = (0..n).map(|i| i >= c).collect();
+                    for r in 0..n {
+                        let mut v = sorted.clone();
+                        v.rotate_left(r);
+                        orders.push(v);
+                    }
+                    orders.push((0..n).map(|i| i % 2 == 0).collect());
+                    orders.push((0..n).map(|i| i % 2 == 1).collect());
+                }
+                for rc in [true, false] {
+                    let fq = |v: &[bool]| -> Vec<u8> {
+                        let mut out = Vec::new();
+                        for (i, second) in v.iter().enumerate() {
+                            let s0 = if *second { &alt } else { &g };
+                            let s1 = if rc && i % 3 == 2 { rc_str(s0) } else { s0.clone() };
+                            out.extend_from_slice(format!("@r{i}\n").as_bytes());
+                            out.extend_from_slice(&s1);
+                            out.extend_from_slice(b"\n+\n");
+                            out.extend(std::iter::repeat(b'I').take(s1.len()));
+                            out.push(b'\n');
+                        }
+                        if v.is_empty() {
+                            out.extend_from_slice(b"@empty\nA\n+\nI\n");
+                        }
+                        out
+                    };
+                    let build = |o: &[bool], cut: usize| -> BTreeMap<String, u8> {
+                        let p1 = scratch::write("c02_r1.fastq", &fq(&o[..cut]));
+                        let p2 = scratch::write("c02_r2.fastq", &fq(&o[cut..]));
+                        dict_or_empty(if k <= 31 { real::build_dict_reads::<u64>(&p1, &p2, k, rc, c as u16, 20, QRule::Strict) } else { real::build_dict_reads::<u128>(&p1, &p2, k, rc, c as u16, 20, QRule::Strict) })
+                    };
+                    let orig = build(&orders[0], c);
+                    for o in &orders {
+                        for cut in [c, 1, n - 1, n] {
+                            rep.evaluations += 1;
+                            if !orig.is_empty() {
+                                rep.nontrivial += 1;
+                            }
+                            let got = build(o, cut);
+                            if got != orig {
+                                let os: String = o.iter().map(|b| if *b { 'b' } else { 'a' }).collect();
+                                rep.violate(
+                                    format!("F7 k={k} rc={rc} c={c} order={os} cut={cut}"),
+                                    format!("reads, two alleles a/b of one split k-mer seen {c} times each, min-count {c}: read order {os} (first {cut} reads in file 1) gives {}, order {} gives {}", show(&got), orders[0].iter().map(|b| if *b { 'b' } else { 'a' }).collect::<String>(), show(&orig)),
+                                    json!({"family": "F7", "k": k, "rc": rc, "min_count": c, "order": os, "cut": cut}),
+                                );
+                            }
+                        }
+                    }
+                    rep.corner("two_alleles_each_at_the_count");
+                }
+            }
+        }
+        rep.completed.push("F7 reads, two alleles at the count".into());
     }
 
     // F5 sample permutations
